@@ -282,6 +282,13 @@ pub fn run(_st: &mut State, op: &str, cmd: &Value) -> Value {
                                                                     "flags": [x.is_visible, x.render_shadow_enabled, x.render_light_shadow_enabeld],
                                                                     "w": [w32(x.asset_path_string_offset), w32(x.collision_asset_path_string_offset), w32(x.attribute_mask),
                                                                           w32(x.attribute), w32(x.collision_config as u32), f32bits(x.render_model_clip_range)]}),
+                                    LayerEntryData::SharedGroup(x) => json!({"k": "shared", "door": format!("{:?}", x.initial_door_state),
+                                                                             "rotation": format!("{:?}", x.initial_rotation_state),
+                                                                             "flags": [x.random_timeline_auto_play, x.random_timeline_loop_playback,
+                                                                                       x.collision_controllable_without_eobj, x.not_create_navimesh_door],
+                                                                             "transform": format!("{:?}", x.initial_transform_state), "colour": format!("{:?}", x.initial_color_state),
+                                                                             "w": [w32(x.asset_path_offset), w32(x.overriden_members as u32), w32(x.overriden_members_count as u32),
+                                                                                   w32(x.bound_client_path_instance_id), w32(x.move_path_settings as u32)]}),
                                     LayerEntryData::EnvSet(x) => json!({"k": "env", "shape": format!("{:?}", x.shape), "flag": x.is_env_map_shooting_point,
                                                                         "priority": x.priority,
                                                                         "w": [w32(x.asset_path_offset), w32(x.bound_instance_id), f32bits(x.effective_range),
